@@ -14,6 +14,7 @@ import (
 func init() {
 	verifHarnesses["HarnessC13Batch"] = HarnessC13Batch
 	verifHarnesses["HarnessC13Convert"] = HarnessC13Convert
+	verifHarnesses["HarnessC13Invalid"] = HarnessC13Invalid
 	verifHarnesses["HarnessC14Malformed"] = HarnessC14Malformed
 }
 
@@ -76,6 +77,68 @@ func srvSameResult(pr *proto.Result, r *updog.Result) bool {
 		}
 	}
 	return true
+}
+
+// srvRefExpr is the harness's own conversion of a request tree: a missing node becomes a nil
+// Expression (which the library rejects), nothing is dropped or invented.
+func srvRefExpr(e *proto.Query_Expression) updog.Expression {
+	if e == nil {
+		return nil
+	}
+	switch v := e.Value.(type) {
+	case *proto.Query_Expression_Eq:
+		return &updog.ExprEqual{Column: v.Eq.Column, Value: v.Eq.Value}
+	case *proto.Query_Expression_Not_:
+		return &updog.ExprNot{Expr: srvRefExpr(v.Not.Expr)}
+	case *proto.Query_Expression_And_:
+		x := &updog.ExprAnd{}
+		for _, k := range v.And.Exprs {
+			x.Exprs = append(x.Exprs, srvRefExpr(k))
+		}
+		return x
+	case *proto.Query_Expression_Or_:
+		x := &updog.ExprOr{}
+		for _, k := range v.Or.Exprs {
+			x.Exprs = append(x.Exprs, srvRefExpr(k))
+		}
+		return x
+	}
+	return nil
+}
+
+// HarnessC13Invalid: a batch whose member is a structurally incomplete tree. Whatever the
+// library says about that query (judged through the reference conversion) the service must
+// say too: an error fails the whole call, a result is returned unchanged.
+func HarnessC13Invalid() {
+	path := verifTempPath("c13i.updog")
+	srvBuild(path)
+	idx, err := updog.OpenIndex(path)
+	if err != nil {
+		panic(err)
+	}
+	s := &server{idx: idx}
+	bad := &proto.Query{Expr: srvMalformed(1 + verifTier())}
+	good := &proto.Query{Expr: pEq("a", "x")}
+	req := &proto.QueryRequest{Queries: []*proto.Query{good, bad}}
+	if verifBool("bad-first") {
+		req.Queries = []*proto.Query{bad, good}
+	}
+	want, werr := idx.Execute(&updog.Query{Expr: srvRefExpr(bad.Expr)})
+	resp, err := s.Query(context.Background(), req)
+	if werr != nil {
+		verifAssert(err != nil && resp == nil, "C13: a batch with a member the library rejects must fail as a whole")
+	} else {
+		verifAssert(err == nil && resp != nil && len(resp.Results) == 2, "C13: a batch of valid queries failed")
+		if err == nil && resp != nil && len(resp.Results) == 2 {
+			i := 1
+			if req.Queries[0] == bad {
+				i = 0
+			}
+			verifAssert(srvSameResult(resp.Results[i], want), "C13: a batched result differs from the library's result for that query")
+		}
+	}
+	idx.Close()
+	verifReach("end")
 }
 
 func HarnessC13Batch() {
